@@ -69,9 +69,13 @@ type c03World struct {
 	Notes   []string
 	Fails   []string // hypotheses of the theorems that do not hold on the real app
 	// C03 only (c03AddContracts): a contract account holding tokens, and an unregistered ERC-20
-	VaultIdx int // -1: none
-	Rogue    common.Address
-	HasRogue bool
+	// C03 only (c03MintLookalikes): coins named like a pair's contract address, per pair index
+	LookLower, LookMixed map[int]string
+	LookPairs            []int
+	LookBal              *big.Int // what each owner of such a coin holds
+	VaultIdx             int      // -1: none
+	Rogue                common.Address
+	HasRogue             bool
 }
 
 func c03Key(i int) *ethsecp256k1.PrivKey {
@@ -205,8 +209,9 @@ type c03Op struct {
 	B1   bool   `json:"b1"` // params: EnableErc20; send_enabled: value
 	B2   bool   `json:"b2"` // params: EnableEVMHook
 	// receipt: one Ethereum transaction with several calls / logs (c03_receipt.go); From = signer (via vault)
-	Via  string   `json:"via,omitempty"` // keeper | vault
-	Legs []c03Leg `json:"legs,omitempty"`
+	Spell string   `json:"spell,omitempty"` // convert_coin_lookalike: lower | mixed (spelling of the contract address used as denomination)
+	Via   string   `json:"via,omitempty"`   // keeper | vault
+	Legs  []c03Leg `json:"legs,omitempty"`
 }
 
 func (w *c03World) acc(i int) sdk.AccAddress { return sdk.AccAddress(w.Parties[i].Addr.Bytes()) }
@@ -258,6 +263,10 @@ func (w *c03World) apply(ctx sdk.Context, o c03Op) bool {
 		case "convert_coin":
 			_, err := a.Erc20Keeper.ConvertCoin(ctx, &erc20types.MsgConvertCoin{
 				Coin: sdk.Coin{Denom: pr.Denom, Amount: sdkmath.NewIntFromBigInt(amt)}, Receiver: w.Parties[o.To].Addr.Hex(), Sender: w.acc(o.From).String()})
+			return err
+		case "convert_coin_lookalike":
+			_, err := a.Erc20Keeper.ConvertCoin(ctx, &erc20types.MsgConvertCoin{
+				Coin: sdk.Coin{Denom: w.c03LookDenom(o), Amount: sdkmath.NewIntFromBigInt(amt)}, Receiver: w.Parties[o.To].Addr.Hex(), Sender: w.acc(o.From).String()})
 			return err
 		case "convert_erc20":
 			_, err := a.Erc20Keeper.ConvertERC20(ctx, &erc20types.MsgConvertERC20{
@@ -445,6 +454,8 @@ func (w *c03World) opTerm(o c03Op) string {
 	switch o.Kind {
 	case "convert_coin":
 		po = App("ConvertCoin", n(o.From), n(o.To), c03Z(amt))
+	case "convert_coin_lookalike":
+		po = App("ConvertForeignCoin", n(o.From), n(o.To), c03Z(amt))
 	case "convert_erc20":
 		po = App("ConvertERC20", n(o.From), n(o.To), c03Z(amt))
 	case "transfer":
